@@ -206,12 +206,15 @@ def sparse(sym, order, base):
             universe = names
         elif st == 'E':
             enc = {universe[0]:aff0(10), universe[2]:aff0(0)}
+            falsy = sym.flag('falsy_default')          # a third encoder whose answer for the implicit '0' is falsy but is not the number zero: the column is not sparse either
+            if falsy: enc[universe[1]] = (lambda x: () if (isinstance(x,str) and x == '0') else x)
             R = list(EncodeRows(enc).filter(R))
             newE = []
             for d in E:
                 n = dict(d)
                 if universe[0] in n: n[universe[0]] = n[universe[0]]+10
                 else: n[universe[0]] = 10           # non-zero default of a not-sparse encoder
+                if falsy and universe[1] not in n: n[universe[1]] = ()
                 newE.append(n)
             E = newE
         elif st == 'D':
@@ -380,3 +383,29 @@ def cat_rows(sym, shape, t1, t2):
             else: exp = _plain(_ref_cat(src, tipe))
             sym.check(_plain(g) == (list(exp) if isinstance(exp, tuple) else exp) or _plain(g) == exp, f"EncodeCatRows({tipe!r}) step {step} row {r} ({shape}): got {_plain(g)!r}, the eager encoding of {snap[r]!r} is {exp!r}")
         sym.check([_plain(r) for r in rows] == snap, f"EncodeCatRows({tipe!r}) changed the rows it was given ({shape}): {[_plain(r) for r in rows]!r} were {snap!r}")
+
+
+# ---------------------------------------------------------------------------------------------------
+@obligation('C13','filter_reuse', bounds="ONE filter object (DropRows by index / by name, EncodeRows by index / by name, LabelRows by name, HeadRows) applied to a first table and then to a second table with another width and header order: the second result equals that of a fresh filter object on the second table, by position, by name and by length",
+            functions=FUNCS, params=lambda tier: [dict(f=f) for f in ('drop_idx','drop_name','encode_idx','encode_name','label_name','head')])
+def filter_reuse(sym, f):
+    mk = {'drop_idx': lambda: DropRows([1]), 'drop_name': lambda: DropRows(['B']), 'encode_idx': lambda: EncodeRows({1: aff(10)}), 'encode_name': lambda: EncodeRows({'B': aff(10)}),
+          'label_name': lambda: LabelRows('B','c'), 'head': lambda: HeadRows(['X','Y','Z'])}[f]
+    def table(which):
+        hdr = {'t1': {'A':0,'B':1,'C':2}, 't2': {'B':0,'D':1,'A':2,'C':3}}[which]
+        w = len(hdr)
+        rows = [[sym.int(f'{which}r{r}c{c}', -1, 1) for c in range(w)] for r in range(2)]
+        if f == 'head': return [list(r) for r in rows]
+        return [HeadDense(list(r), dict(hdr)) for r in rows]
+    first = sym.choice('first', ['t1','t2']); second = 't2' if first == 't1' else 't1'
+    flt = mk()
+    list(flt.filter(table(first)))
+    t = table(second)
+    got = list(flt.filter([HeadDense(list(r), dict(r.headers)) if f != 'head' else list(r) for r in t]))
+    exp = list(mk().filter([HeadDense(list(r), dict(r.headers)) if f != 'head' else list(r) for r in t]))
+    sym.check(len(got) == len(exp), "row count")
+    for g,e in zip(got,exp):
+        sym.check(len(g) == len(e) and list(g) == list(e), f"{f}: second use of the filter object gives {list(g)}, a fresh object gives {list(e)}")
+        if hasattr(e,'headers') and e.headers:
+            sym.check(getattr(g,'headers',None) == e.headers and all(g[k] == e[k] for k in e.headers), f"{f}: header access differs on the second use ({getattr(g,'headers',None)} vs {e.headers})")
+        if f == 'label_name': sym.check(g.label == e.label and list(g.feats) == list(e.feats), f"{f}: label/feats differ on the second use")
